@@ -231,6 +231,37 @@ func monC02(w *World) {
 			checkAgg(agg, honest, origin)
 		}
 	}
+	// what a replica's own verification says about a timeout certificate that nobody backs (its answer may depend on its
+	// own state, which the auditor does not share)
+	w.hooks.onHandle = append(w.hooks.onHandle, func(nd *Node, ev any) {
+		if !nd.honest || w.viol != nil {
+			return
+		}
+		var si hotstuff.SyncInfo
+		switch e := ev.(type) {
+		case hotstuff.NewViewMsg:
+			si = e.SyncInfo
+		case hotstuff.TimeoutMsg:
+			si = e.SyncInfo
+		default:
+			return
+		}
+		tc, ok := si.TC()
+		if !ok || tc.View() == 0 {
+			return
+		}
+		if backed, why := w.orc.tcBacked(tc); !backed {
+			w.probe("c02-unbacked-tc-at-replica")
+			accepted := false
+			func() {
+				defer func() { _ = recover() }()
+				accepted = nd.auth.VerifyTimeoutCert(tc) == nil
+			}()
+			if accepted {
+				w.violate("C02", "C02/sound-tc", nd, "%s's own VerifyTimeoutCert accepts a certificate for view %d that is not backed by a quorum: %s", nd, tc.View(), why)
+			}
+		}
+	})
 	var pool []hotstuff.QuorumCert
 	var poolTC []hotstuff.TimeoutCert
 	w.hooks.onSend = append(w.hooks.onSend, func(from *Node, to hotstuff.ID, m *Msg) {
@@ -646,6 +677,41 @@ func assembledChecks(w *World) {
 		w.probe("verify-then-batchverify-checked")
 		if c != p {
 			w.violate("C11", "C11/verify-then-batch/accept-vs-reject", nil, "the signature of the certificate for %s, verified over the block and then presented as a batch signature with that block as every signer's message: cached:%v uncached:%v", w.reg.sym(qc.BlockHash()), verdictB(c), verdictB(p))
+		}
+	}
+	// after a batch signature verified: each of its parts, presented alone with another signer's message of that batch
+	if nd := w.nodes[len(w.nodes)-1]; nd != nil && w.viol == nil && len(w.nodes) >= 3 {
+		batch := map[hotstuff.ID][]byte{}
+		var sigs []hotstuff.QuorumSignature
+		var order []hotstuff.ID
+		// descending signer order: not the order of the sorted batch keys
+		for i := len(w.nodes) - 1; i >= 0 && len(sigs) < 3; i-- {
+			x := w.nodes[i]
+			if x.raw == nil || batch[x.id] != nil {
+				continue
+			}
+			m := []byte(fmt.Sprintf("batch message of replica %d", x.id))
+			if sig, err := x.raw.Sign(m); err == nil && sig != nil {
+				batch[x.id], sigs, order = m, append(sigs, sig), append(order, x.id)
+			}
+		}
+		if len(sigs) == 3 {
+			if comb, err := nd.raw.Combine(sigs...); err == nil && comb != nil {
+				for i := range sigs {
+					j := (i + 1) % len(sigs)
+					c, p, _ := au.each(func(x *cert.Authority) error {
+						if err := x.BatchVerify(comb, batch); err != nil {
+							return nil
+						}
+						return x.Verify(sigs[i], batch[order[j]])
+					})
+					w.probe("batch-then-part-checked")
+					if c != p {
+						w.violate("C11", "C11/batch-then-part/accept-vs-reject", nil, "after a batch signature of %v verified, the part signed by %d presented alone with the message of %d: cached:%v uncached:%v", order, order[i], order[j], verdictB(c), verdictB(p))
+						break
+					}
+				}
+			}
 		}
 	}
 	// a single signature over the very bytes the batch digest is built from (signer id, length, message), verified
